@@ -33,6 +33,7 @@ def member_lists(tier):
         ('str3', [S('a*'), S('*b'), S('*c*')]), ('mix3', [S('a'), S('ib'), S('?c')]), ('int3', [('i', 1), ('i', 2), S('>=3')]),
         ('map1', [T.M((T.K('g'), S('a')))]), ('map2', [T.M((T.K('g'), S('a'))), T.M((T.K('g'), S('b*')))]),
         ('map2h', [T.M((T.K('g'), S('a'))), T.M((T.K('h'), S('b')))]),
+        ('batches3', [S('a*'), S('*b'), S('ic')]), ('batches-re', [S('a*'), S('*b'), S('?c')]), ('batches4', [S('ia'), S('ib'), S('c'), S('d')]),
     ]
     if tier != 'quick':
         lists += [
@@ -186,6 +187,9 @@ def compare(ck, tr, br, label, yaml, kind, n, ts, singles, members):
 
 
 def role(kind, n, members, r):
+    import C02
+    if C02.several_batches(None, r):
+        return 'quantifier:list-split-into-several-batches'
     k = len(members)
     kinds = {m[0] if not isinstance(m, list) else 'entry' for m in members}
     return 'quantifier:%s%s-over-%s-%s' % (kind, '' if n is None else ('0' if n == 0 else 'n'), 'one' if k == 1 else 'many', '+'.join(sorted(kinds)))
